@@ -16,6 +16,16 @@ class _Boom(Exception):
     """Private exception raised inside generated context bodies."""
 
 
+class _BoomBase(BaseException):
+    """Same, but not an Exception subclass (like KeyboardInterrupt/SystemExit):
+    'also when the body raises' must not depend on the exception's base."""
+
+
+def boom(kind):
+    """kind: True/'exc' -> _Boom, 'base' -> _BoomBase."""
+    return _BoomBase() if kind == "base" else _Boom()
+
+
 # ---------------------------------------------------------------------------
 # coordinate strategies
 # ---------------------------------------------------------------------------
@@ -265,6 +275,17 @@ def motion_op_strategy(coord=None, shapes=True, depth=2):
         st.fixed_dictionaries({"op": st.just("set_distance_mode"),
                                "mode": st.sampled_from(["absolute", "relative"])}),
     )
+    noise = st.one_of(
+        st.sampled_from([("set_extrusion_mode", "relative"), ("set_extrusion_mode", "absolute"),
+                         ("set_feed_mode", "1/time"), ("set_feed_mode", "units/min"),
+                         ("set_plane", "zx"), ("comment", "note"), ("set_length_units", "in"),
+                         ("set_feed_rate", 1200.0)]).map(
+            lambda t: {"op": "noise", "call": t[0], "args": [t[1]]}),
+        st.sampled_from([{"decimal_places": 1}, {"decimal_places": 0, "y_axis": "V"},
+                         {"x_axis": "A", "z_axis": "C", "comment_symbols": "("},
+                         {"decimal_places": 9, "line_endings": "\\r\\n"}]).map(
+            lambda c: {"op": "other_builder", "cfg": c}))
+    prim = st.one_of(prim, prim, prim, prim, prim, noise)
     if shapes:
         prim = st.one_of(prim, prim, prim, st.fixed_dictionaries(
             {"op": st.just("shape"), "d": shape_strategy(),
@@ -276,7 +297,7 @@ def motion_op_strategy(coord=None, shapes=True, depth=2):
         "op": st.just("ctx"),
         "kind": st.sampled_from(["absolute_mode", "relative_mode"]),
         "body": st.lists(inner, min_size=0, max_size=4),
-        "raise": st.booleans()})
+        "raise": st.sampled_from([False, False, True, "base"])})
     return st.one_of(prim, prim, prim, prim, ctx)
 
 
@@ -309,8 +330,8 @@ def run_ops(g, ops, after, before=None, depth=0):
                     after({"op": "enter:" + op["kind"]}, None)
                     run_ops(g, op["body"], after, before, depth + 1)
                     if op.get("raise"):
-                        raise _Boom()
-            except _Boom:
+                        raise boom(op["raise"])
+            except (_Boom, _BoomBase):
                 pass
             after({"op": "exit:" + op["kind"], "raised": bool(op.get("raise")),
                    "prev_mode": prev_mode}, None)
@@ -320,7 +341,7 @@ def run_ops(g, ops, after, before=None, depth=0):
         exc = None
         try:
             exec_primitive(g, op)
-        except _Boom:
+        except (_Boom, _BoomBase):
             raise
         except Exception as e:   # judged by the caller's oracle
             exc = e
@@ -359,6 +380,18 @@ def exec_primitive(g, op):
         kw = dict(kw)
         kw.update(op.get("params", {}))
         return getattr(g.trace, method)(*args, **kw)
+    if name == "noise":     # state-tracked calls that do not move anything
+        return getattr(g, op["call"])(*op.get("args", []))
+    if name == "other_builder":
+        # another builder with a different configuration is created (and used)
+        # while this one is alive: nothing of it may leak into this one
+        import gscrib
+        from vf.common import recorder_class
+        other = gscrib.GCodeBuilder(**op["cfg"])
+        other.add_writer(recorder_class()())
+        other.move(x=1.23456789, y=2)
+        other.set_distance_mode("relative")
+        return None
     if name == "call":      # generic descriptor
         from vf.common import apply_call
         return apply_call(g, op["call"])
